@@ -54,6 +54,8 @@ def main(argv=None):
     rundir = os.path.join(VERIF, ".scratch", f"run-{prop}-{tier}-{os.getpid()}")
     shutil.rmtree(rundir, ignore_errors=True)
     os.makedirs(rundir)
+    with open(os.path.join(rundir, "owner.pid"), "w") as f:
+        f.write(str(os.getpid()))
 
     procs = []
     for i, sh in enumerate(shards):
@@ -278,10 +280,21 @@ def _prune_scratch(keep_dir):
     root = os.path.dirname(keep_dir)
     try:
         runs = sorted((os.path.join(root, d) for d in os.listdir(root)), key=os.path.getmtime)
-        for d in runs[:-5]:
+        dead = [d for d in runs if d != keep_dir and not _owner_alive(d)]
+        for d in dead[:-5]:
             shutil.rmtree(d, ignore_errors=True)
     except Exception:
         pass
+
+
+def _owner_alive(rundir):
+    try:
+        with open(os.path.join(rundir, "owner.pid")) as f:
+            pid = int(f.read().strip())
+        os.kill(pid, 0)
+        return True
+    except (OSError, ValueError):
+        return False
 
 
 if __name__ == "__main__":
